@@ -26,7 +26,7 @@ def reload_search(tier):
              'ghost.conf': lambda md: e1.conf_text(md, services=[('ghost.svc', 'login')], timeout=0, rules=rules),
              'orig.conf': lambda md: e1.conf_text(md, services=services, timeout=0, rules=rules)}
     return dict(label='solo/reloads/login/t0', services=services, rules=rules, timeout=0, ids=[1], alphabet=reload_alphabet([1]), flags=e1.F_DUMP | e1.F_STATS,
-                maxdepth=12 if tier != 'quick' else 8, maxstates=60000 if tier != 'quick' else 6000, keep_refs=True, reload_files=files)
+                maxdepth=12 if tier != 'quick' else 8, maxstates=60000 if tier != 'quick' else 6000, keep_refs=True, reload_files=files, merge_check=False)
 
 
 def plan(tier):
